@@ -1521,6 +1521,7 @@ fn rustfmt(src: &str) -> Option<String> {
 
 #[derive(Default, Clone)]
 struct ExtractSpec {
+    no_decreases: bool,
     boundmap: bool,
     to_block_end: bool,
     no_loop_isolation: bool,
@@ -2123,6 +2124,9 @@ impl Unit {
         let vis = &vis;
         let fn_ts = if spec.spec_only {
             quote! { #[verifier::external_body] #vis #sig #block }
+        } else if spec.no_decreases {
+            // partial correctness only: the loop has no variant (a retry loop); termination is NOT claimed
+            quote! { #[verifier::exec_allows_no_decreases_clause] #vis #sig #block }
         } else if spec.no_loop_isolation {
             // proof strategy only (no effect on the executable text): facts established before a loop stay available in it
             quote! { #[verifier::loop_isolation(false)] #vis #sig #block }
@@ -2753,6 +2757,8 @@ impl Unit {
                             } else if let Some(n) = o.strip_prefix("assoc=") {
                                 let (a, t) = n.split_once(':').unwrap_or_else(|| die("bad assoc="));
                                 spec.assoc.push((a.to_string(), t.replace('~', " ")));
+                            } else if o == "no_decreases" {
+                                spec.no_decreases = true
                             } else if o == "no_loop_isolation" {
                                 spec.no_loop_isolation = true
                             } else if o == "boundmap" {
